@@ -13,6 +13,6 @@ VERIF_SHIM_LOG="$LOG" HUGR_BIN="$HERE/tools/hugr_bin_shim" PYTHONPATH="$HERE/too
 import json, sys
 rows = [json.loads(l) for l in open(sys.argv[1])]
 rej = [r for r in rows if r["errors"]]
-print(json.dumps({"documents": len(rows), "rejected": len(rej), "examples": [r["errors"][:2] for r in rej[:5]]}))
+print(json.dumps({"documents": len(rows), "rejected": len(rej), "examples": [r["errors"][:2] for r in rej[:8]]}))
 PY
 rm -f "$LOG"
